@@ -154,7 +154,7 @@ class Model:
             except SyntaxError as err:
                 raise AnalysisError("module %s does not parse: %s" % (name, err))
             sources[name] = (path, src)
-        from . import flatten, renames
+        from . import flatten, renames, simplify
 
         # methods inherited from private in-module base classes are analysed as methods of the subclass
         self.flattened = []
@@ -162,6 +162,8 @@ class Model:
             self.flattened += ["%s.%s" % (name, x) for x in flatten.apply(trees[name])]
         # anchors found under a new name are analysed under the name the rules know
         self.renamed = renames.apply(trees)
+        # equivalent spellings (leading walrus, isinstance with a tuple, any/all over constants, conditional expressions)
+        self.simplified = {name: simplify.apply(trees[name]) for name in MODULES}
         for name in MODULES:
             path, src = sources[name]
             mod = ModuleInfo(name, path, src, trees[name])
